@@ -1,11 +1,14 @@
 /- Registry of line-protocol dialects. One entry per dialect: add a line here. -/
 import GluonModel.Driver.DFlush
+import GluonModel.Driver.DJudgeFlush
 
 namespace Gluon.Driver
 
 def dialects : List (String × (List String → String)) := [
   ("flush", runFlush),
-  ("merge", runMerge)
+  ("merge", runMerge),
+  ("judge-c05-flush", judgeC05),
+  ("judge-c01-flush", judgeC01)
 ]
 
 def step (line : String) : String :=
